@@ -612,3 +612,32 @@ package rapid
 //@   at sm.check#1 set pendingCheck = false
 //@   at repeat.reject#0 assert [C08] !pendingCheck
 //@   loop 1 invariant [C08] t.failed == "" && unlocked(t) && !pendingCheck && repeatInv(repeat) && groupUsed(repeat)
+
+// ---------------------------------------------------------------------------------------------
+// engine.go: the Check driver
+//
+// runs:     number of test cases executed by findBug (calls of checkOnce there)
+// lastInit: seed given to the most recent r.init in findBug
+// searched: doCheck has gone on to random search (no fail file reproduced)
+
+//@ ghost runs (_ BitVec 64)
+//@ ghost lastInit (_ BitVec 64)
+//@ ghost searched Bool
+
+//@ func findBug
+//@   noframe "runs the property"
+//@   requires [C09] 0 <= checks && checks <= math.MaxInt/10
+//@   requires [C11] prop != nil
+//@   ensures [C09] 0 <= result0 && 0 <= result1 && result0 <= checks && result1 <= checks*10
+//@   ensures [C09] implies(result4 == nil && !result2, result0 == checks || result1 == checks*10)
+//@   ensures [C09] runs - old(runs) == result0 + result1 + ite(result4 != nil, 1, 0)
+//@   ensures [C02,C11] implies(result4 != nil, !isInvalidData(result4.data) && fresh(result4))
+//@   ensures [C07] implies(result4 != nil, result3 == lastInit) && implies(result4 == nil, result3 == 0)
+//@   ensures [C09] implies(result2, result4 == nil)
+//@   modifies heap, drawn, runs, lastInit, lockmode, cancelled
+//@   at r.init#0 assert [C07] implies(valid + invalid == 0, seed == old(seed))
+//@   at r.init#0 set lastInit = seed
+//@   at checkOnce#0 set runs = runs + 1
+//@   loop 0 invariant [C09] 0 <= valid && valid <= checks && 0 <= invalid && invalid <= checks*10 && runs - old(runs) == valid + invalid
+//@   loop 0 invariant [C11] clean(t) && unlocked(t) && fresh(t)
+//@   loop 0 invariant [C07] implies(valid + invalid == 0, seed == old(seed))
